@@ -88,7 +88,7 @@ CLAIMS.update({
  "C23": ("P-TRIE literal-dispatch reconstruction + per-literal agreement of monomorphic callee tokens between encrypt and decrypt",
          "R23a name-set equality (encrypt / decrypt / validator, and encrypt_ip/decrypt_ip); R23b same cipher, mode, padding and key/IV sizes per name on both sides.", "§4 C23"),
  "C27": ("P-TRIE (byte tries and str chains) + name normalisation of the instantiated hasher / constant per variant literal",
-         "R27a each variant's leaf instantiates the algorithm of that name and no sibling's; R27b validator table == dispatch set; R27c md5/sha1/seahash use their own crate; R27d no narrowing integer cast on a hasher's output (P-FLOW).", "§4 C27"),
+         "R27a each variant's leaf instantiates the algorithm of that name and no sibling's; R27b validator table == dispatch set; R27c md5/sha1/seahash use their own crate; R27d no narrowing integer cast on a hasher's output (P-FLOW); R27e every success return of resolve is dominated by a read of the algorithm/variant field.", "§4 C27"),
 })
 
 CLAIMS.update({
